@@ -22,7 +22,7 @@ theorem opNameIn_eq (runs : List (Nat × Nat × String)) (info : Nat) :
       | none => defaultOpName info := rfl
 
 /-- (version, rmid, opcode): the opcodes PostgreSQL `version` does not have yet (no record of that version carries them)
-for which the tool nevertheless prints the name a later version gives them: Transaction INVALIDATIONS (since 14),
+for which the tool nevertheless prints the name a later version gives them: Transaction INVALIDATION (since 14),
 Btree INSERT_POST and DEDUP (since 13), Gist ASSIGN_LSN (since 13) -/
 def namedAhead : List (Nat × Nat × Nat) :=
   [(12, 1, 0x60), (13, 1, 0x60), (12, 11, 0x50), (12, 11, 0x60), (12, 14, 0x70)]
